@@ -373,3 +373,46 @@ def c19(run):
                    sample_key=lambda c: {"src": c["src"], "vars": [x["name"] for x in c["refs"]["vars"]], "fns": [x["name"] for x in c["refs"]["fns"]],
                                          "outcomes": [(r["out"].get("k"), r["out"].get("c"), r["out"].get("name")) for r in c["runs"]]},
                    what="references: a looked-up / undeclared name is not reported, a fully defined context still failed with undeclared, or the report is not an identifier of the source")
+
+
+# ----------------------------------------------------------------------------------------------
+# C05
+
+def probe_sync(run):
+    """Compile-time probe: Program, Context<'static>, Value, ExecutionError must be Send + Sync."""
+    import subprocess
+    d = os.path.join(ROOT, "harness", "probe_sync")
+    p = subprocess.run(["cargo", "build", "--offline", "--quiet"], cwd=d, stdout=subprocess.PIPE, stderr=subprocess.STDOUT, text=True)
+    if p.returncode != 0:
+        if "cannot be sent between threads" in p.stdout or "cannot be shared between threads" in p.stdout or "Send" in p.stdout or "Sync" in p.stdout:
+            run.violation({"probe": "Send + Sync", "compiler_output": p.stdout[-3000:]}, "a type shared between threads is no longer Send + Sync")
+        else:
+            raise T.ToolError("probe_sync failed to build:\n" + p.stdout[-2000:])
+    else:
+        run.note_case("probe_sync", True)
+        run.traces += 1
+
+
+@check("C05")
+def c05(run):
+    run.rule = ("model: CelShare -- 2 (quick) / 3 (thorough) threads, each choosing freely up to 4 heap operations (load a context buffer, allocate, concatenate with a "
+                "separate uniqueness test and mutation, drop), every interleaving: RootImmutable, NoDangling, ResultIsSequential, HeldValuesStable; negative "
+                "configurations (unchecked in-place append, shared scratch buffer) must violate them; impl->spec: histories of 5-50 executions against one Context "
+                "(context variables and every value obtained earlier re-read after each execution; repeats); 2-16 OS threads sharing &[Program] and the root &Context, "
+                "each concurrent outcome compared with the program run alone and with the specification; Send+Sync compile-time probe; non-trivial = the program "
+                "concatenates or iterates a context variable")
+    model_check(run, "CelShare", cfg=run.q("CelShare_q", "CelShare"), workers=12)
+    model_check(run, "CelShare", cfg="CelShare_neg1", workers=4, expect_violation=True)
+    model_check(run, "CelShare", cfg="CelShare_neg2", workers=4, expect_violation=True)
+    run.exhaustive = True
+    probe_sync(run)
+    nt = lambda c: any(v in c["src"] for v in ("vl1", "vl2", "vl3", "vs1", "vs2", "vm1"))
+    h = run.work("histories.ndjson")
+    celconf(["share-histories", "--seed", run.seed, "--n", run.q(60, 1500), "--out", h])
+    validate_trace(run, "CelEvalTrace", h, nontrivial=nt,
+                   what="history: an execution changed its context or an earlier value, or its result is not the specification's")
+    for k, (threads, rounds, per) in enumerate(run.q([(4, 4, 150), (8, 4, 150)], [(2, 40, 200), (4, 40, 200), (8, 40, 200), (16, 40, 200)])):
+        t = run.work("threads_%d.ndjson" % threads)
+        celconf(["share-threads", "--seed", run.seed + k, "--n", rounds, "--threads", threads, "--per", per, "--out", t])
+        validate_trace(run, "CelEvalTrace", t, nontrivial=nt,
+                       what="concurrent execution: outcome differs from the same program run alone / from the specification, or the shared context changed")
